@@ -327,3 +327,20 @@ PROPS["C02"] = dict(
     rule="a case is a (operator, value pair) or a (program, context); a program is non-trivial when it "
          "contains at least two operator/call/macro characters; distinct by text and context",
 )
+
+PROPS["C20"] = dict(
+    streams=["C20"],
+    compare=cmp_laws,
+    classify=lambda case, model, why: dict(kind="failing-input", why=(case[1][:300] if "kind=law" in case[2] else why)),
+    gate_imports=EVAL_GATE + "From Cel.Proofs Require Import MacroProofs CallProofs.",
+    exhaustive=True,
+    exhaustive_note="every receiver-style built-in (19) x every value of the ~100-value boundary set as "
+                    "receiver (x 9 argument values for the binary ones, half of them sampled in the quick "
+                    "tier) in both call styles, with the equivalence evaluated on the implementation; "
+                    "every host-function signature of the 41-entry menu (arity 0-9; Value, every typed "
+                    "parameter, This<T>, This<Option<T>>, Arguments, Identifier, Expression, with and "
+                    "without &FunctionContext) x 0..arity+2 arguments drawn from 14 argument kinds, in "
+                    "both call styles, registered under a fresh name and under the built-in name 'size'",
+    rule="a case is (signature or built-in, call style, argument-kind vector); every case is "
+         "non-trivial; distinct by program text and context",
+)
